@@ -12,7 +12,7 @@ from fimverif.engines.refmodel import RefStore, ModelRaise, UNSPEC
 ID = "C05"
 RULE = ("Operation sequences over a small alphabet (graphs g,h; node ids a,b,c; classes X,Y; relations r,s; property "
         "names p,q,Name,Type + identity names; values 1,'v','w'), executed in lock-step on the shared-store backend, "
-        "the per-graph backend and an executable reference model: exhaustively over a 53-operation reduced alphabet "
+        "the per-graph backend and an executable reference model: exhaustively over a 54-operation reduced alphabet "
         "from an empty, a populated and a 'twins' base state (both graphs hold the same two linked nodes) (quick: "
         "depth<=2 complete and every 9th depth-3 sequence; thorough: "
         "depth<=3 complete), and Hypothesis-generated sequences of up to 40 operations over the full alphabet. After "
@@ -76,6 +76,7 @@ REDUCED = [
     ["unset_node", "g", "a", "NodeID"], ["unset_node", "g", "a", "GraphID"], ["unset_node", "g", "b", "Type"],
     ["unset_node", "g", "a", "q"],
     ["upd_node_props", "g", "a", {"p": "w", "q": 1}], ["upd_node_props", "g", "a", {"Class": "Y", "p": 1}],
+    ["upd_node_props", "g", "a", {"Class": "", "p": 1}],
     ["upd_nodes", "g", "q", "v"], ["upd_nodes", "g", "Class", "Y"],
     ["upd_link", "g", "a", "b", "r", "p", 1], ["upd_link", "g", "a", "b", "s", "p", 1],
     ["upd_link", "g", "a", "b", "r", "Class", "s"],
@@ -113,7 +114,10 @@ _pn_any = st.sampled_from(PNAMES + PNAMES + IDENT)
 _pn_upd = st.sampled_from(PNAMES + PNAMES + ["Class"])
 _v = st.sampled_from(VALS)
 _props = st.one_of(st.none(), st.dictionaries(_pn, _v, max_size=3))
-_props_cls = st.dictionaries(st.sampled_from(PNAMES + ["Class"]), _v, min_size=1, max_size=3)
+# (values for the protected name include "nothing-like" ones: the guard is about the NAME being offered, not about
+# the value looking like a class)
+_v_or_falsy = st.one_of(_v, _v, st.sampled_from(["", 0]))
+_props_cls = st.dictionaries(st.sampled_from(PNAMES + ["Class"]), _v_or_falsy, min_size=1, max_size=3)
 _policy = st.one_of(st.none(), st.dictionaries(_pn, st.sampled_from(["discard", "overwrite", "combine"]), max_size=3))
 
 
